@@ -157,3 +157,177 @@ def judge(res, rd, name, events, module):
     res.report_fails(v["fails"], os.path.join(vlib.OUT, "viol"))
     res.extra["cli_events"] = res.extra.get("cli_events", 0) + len(events)
     res.checker_cmds.append("vata (CLI) on %d cases -> %s" % (len(events), module))
+
+
+# ----------------------------------------------------------------------------- automaton-returning commands
+def parse_timbuk_out(txt):
+    """the CLI's Timbuk output -> {"fin": [names], "rules": [[sym, [kids], parent]]} with state NAMES as strings"""
+    fin, rules = [], []
+    in_tr = False
+    for line in txt.splitlines():
+        t = line.strip()
+        if not t:
+            continue
+        if not in_tr:
+            if t.startswith("Final States"):
+                fin = t[len("Final States"):].split()
+            elif t.startswith("Transitions"):
+                in_tr = True
+            continue
+        if "->" not in t:
+            raise ValueError("unexpected line in CLI output: " + t)
+        lhs, rhs = t.rsplit("->", 1)
+        lhs, rhs = lhs.strip(), rhs.strip()
+        if "(" in lhs:
+            sym = lhs[:lhs.index("(")].strip()
+            inner = lhs[lhs.index("(") + 1:lhs.rindex(")")]
+            kids = [k.strip() for k in inner.split(",")] if inner.strip() else []
+        else:
+            sym, kids = lhs, []
+        rules.append([sym, kids, rhs])
+    return {"fin": fin, "rules": rules}
+
+
+def to_nfa(a):
+    start = sorted(set(r[2] for r in a["rules"] if not r[1]))
+    return {"start": start, "fin": a["fin"], "delta": [[r[1][0], r[0], r[2]] for r in a["rules"] if len(r[1]) == 1]}
+
+
+def named(a):
+    """the operand as the CLI sees it: state names q<N>"""
+    return {"fin": ["q%d" % q for q in a["fin"]], "rules": [[r[0], ["q%d" % k for k in r[1]], "q%d" % r[2]] for r in a["rules"]]}
+
+
+def ta_op_events(cases, rd, repr_="expl"):
+    """cases: {"cmd": union|isect|load-p|load-s|red|witness|cmpl, "A", ["B"], ["syms"]} -> events in the driver's format
+    (union / isect / trim2 / reduce / witness / compl) with the result automaton parsed from the CLI's output"""
+    d = os.path.join(rd, "cli")
+    os.makedirs(d, exist_ok=True)
+
+    def one(ic):
+        i, c = ic
+        cmd = c["cmd"]
+        fa = os.path.join(d, "oa%d.txt" % i)
+        txt = ta_text(c["A"], "A")
+        if cmd == "cmpl" and c.get("syms"):
+            # the alphabet of the complement is what the Ops line declares (incl. unused symbols)
+            lines = txt.splitlines()
+            lines[0] = "Ops " + " ".join("%s:%d" % (s[0], s[1]) for s in c["syms"])
+            txt = "\n".join(lines) + "\n"
+        open(fa, "w").write(txt)
+        files = [fa]
+        if "B" in c and cmd in ("union", "isect"):
+            fb = os.path.join(d, "ob%d.txt" % i)
+            open(fb, "w").write(ta_text(c["B"], "B"))
+            files.append(fb)
+        args = ["-r", repr_]
+        if cmd == "load-p":
+            args += ["-p", "load"]
+        elif cmd == "load-s":
+            args += ["-s", "load"]
+        else:
+            args += [cmd]
+        out, st = run_vata(args + files)
+        for f in files:
+            os.remove(f)
+        opname = {"union": "union", "isect": "isect", "load-p": "trim2", "load-s": "trim2", "red": "reduce", "witness": "witness", "cmpl": "compl"}[cmd]
+        ev = {"id": c.get("id"), "op": opname, "A": c["A"], "src": "cli:%s:%s" % (repr_, cmd), "cmd": cmd, "maps": "none"}
+        if "B" in c:
+            ev["B"] = c["B"]
+        if repr_ != "expl":
+            ev["langonly"] = True
+        if st != "ok" or out is None:
+            ev["outcome"] = st if (st == "hang" or st.startswith("crash")) else "exception:cli-" + st
+            ev["what"] = (out or "")[:200]
+            return ev
+        try:
+            R = parse_timbuk_out(out)
+        except ValueError as e:
+            ev["outcome"] = "exception:cli-output"
+            ev["what"] = str(e)
+            return ev
+        ev["outcome"] = "ok"
+        res = {"A_after": c["A"]}
+        if "B" in c:
+            res["B_after"] = c["B"]
+        if opname == "trim2":
+            res["unreach" if cmd == "load-p" else "useless"] = R
+        else:
+            res["R"] = R
+        if opname == "compl":
+            res["alphabet"] = c.get("syms") or sorted([list(x) for x in set((r[0], len(r[1])) for r in c["A"]["rules"])])
+        ev["res"] = res
+        return ev
+    with concurrent.futures.ThreadPoolExecutor(max_workers=vlib.NCPU) as ex:
+        return list(ex.map(one, enumerate(cases)))
+
+
+def fa_op_events(cases, rd):
+    """cases: {"cmd": union|isect|witness|load-p|load-s, "A", ["B"]} on NFAs through `vata -r expl_fa`"""
+    d = os.path.join(rd, "cli")
+    os.makedirs(d, exist_ok=True)
+
+    def strip_names(n):
+        f = lambda s: s
+        return n
+
+    def one(ic):
+        i, c = ic
+        cmd = c["cmd"]
+        fa = os.path.join(d, "na%d.txt" % i)
+        open(fa, "w").write(nfa_text(c["A"], "A"))
+        files = [fa]
+        if "B" in c and cmd in ("union", "isect"):
+            fb = os.path.join(d, "nb%d.txt" % i)
+            open(fb, "w").write(nfa_text(c["B"], "B"))
+            files.append(fb)
+        args = ["-r", "expl_fa"] + (["-p", "load"] if cmd == "load-p" else ["-s", "load"] if cmd == "load-s" else [cmd])
+        out, st = run_vata(args + files)
+        for f in files:
+            os.remove(f)
+        kind = {"union": "union", "isect": "isect", "witness": "witness", "load-p": "unreach", "load-s": "useless"}[cmd]
+        ev = {"id": c.get("id"), "op": "faop", "kind": kind, "A": c["A"], "src": "cli:expl_fa:" + cmd}
+        if "B" in c and cmd in ("union", "isect"):
+            ev["B"] = c["B"]
+        if st != "ok" or out is None:
+            ev["outcome"] = st if (st == "hang" or st.startswith("crash")) else "exception:cli-" + st
+            return ev
+        try:
+            R = to_nfa(parse_timbuk_out(out))
+        except (ValueError, IndexError) as e:
+            ev["outcome"] = "exception:cli-output"
+            return ev
+        ev["outcome"] = "ok"
+        res = {"R": R, "A_after": c["A"]}
+        if "B" in ev:
+            res["B_after"] = c["B"]
+        ev["res"] = res
+        return ev
+    with concurrent.futures.ThreadPoolExecutor(max_workers=vlib.NCPU) as ex:
+        return list(ex.map(one, enumerate(cases)))
+
+
+def bddincl_events(cases, rd):
+    """C07 through the CLI: -r bdd-bu / bdd-td with the option words of each selection; a non-zero exit (the CLI reports an
+    unimplemented selection / an exception) is 'N' (no verdict), a crash or hang is reported as such"""
+    d = os.path.join(rd, "cli")
+    os.makedirs(d, exist_ok=True)
+    sels = {"bu_up": ("bdd-bu", "dir=up,sim=no"), "bu_dr_sim": ("bdd-bu", "dir=down,rec=yes,sim=yes"),
+            "td_dr": ("bdd-td", "dir=down,rec=yes,sim=no"), "td_dro": ("bdd-td", "dir=down,rec=yes,optC=yes,sim=no"),
+            "bu_dn": ("bdd-bu", "dir=down,rec=no,sim=no"), "td_up": ("bdd-td", "dir=up,sim=no")}
+
+    def one(ic):
+        i, c = ic
+        fa, fb = os.path.join(d, "ba%d.txt" % i), os.path.join(d, "bb%d.txt" % i)
+        open(fa, "w").write(ta_text(c["A"], "A"))
+        open(fb, "w").write(ta_text(c["B"], "B"))
+        v = {}
+        for k, (r, o) in sels.items():
+            out, st = run_vata(["-r", r, "-o", o, "incl", fa, fb])
+            x = verdict(out, st)
+            v[k] = x if x in ("T", "F") or x.startswith("X:hang") or x.startswith("X:crash") else "N"
+        os.remove(fa)
+        os.remove(fb)
+        return {"id": c.get("id"), "op": "bddincl", "A": c["A"], "B": c["B"], "src": "cli:" + str(c.get("src")), "outcome": "ok", "res": {"v": v}}
+    with concurrent.futures.ThreadPoolExecutor(max_workers=vlib.NCPU) as ex:
+        return list(ex.map(one, enumerate(cases)))
